@@ -31,3 +31,5 @@ def run(project, rep):
     rep.run(F.f_r2_init, schema, rep)
     rep.run(Z.z_r4_conversion, project, rep)
     rep.run(Z.z_r5_offset_sign, project, rep)
+    rep.run(Z.z_r6_carrier_date, project, rep)
+    rep.run(Z.z_r1_grammar, project, rep)
